@@ -89,6 +89,13 @@ fn huge_uri(call: &CallRec, meta: &EpMeta) -> bool {
     total > 16_000
 }
 
+/// the known macro-client case: ConjureResponseDeserializer on a 204 for an optional / collection return
+fn macro_204(call: &CallRec, exchanges: &[Exchange], ci: usize) -> bool {
+    call.client_kind == crate::mirror::ClientKind::Macro
+        && exchanges.iter().any(|e| e.call as usize == ci && matches!(&e.resp_wire, Some(w) if w.status == 204))
+        && matches!(ir().eps[call.ep].ret_kind_name(), "optional" | "collection")
+}
+
 fn within_limit(exchanges: &[Exchange], call: usize, meta: &EpMeta) -> bool {
     match meta.limit {
         None => true,
@@ -282,6 +289,11 @@ fn c04(ctx: &Ctx, calls: &[CallRec], exchanges: &[Exchange], records: &[Record])
                         }
                         None => ctx.violation("C04", "handler_invoked_twice", format!("{}: handler ran without a scripted return (extra invocation)", who)),
                     },
+                    CallResult::Err(e) if macro_204(call, exchanges, ci) => ctx.violation(
+                        "C04",
+                        format!("macro_client_204:{}", meta.ret_kind_name()),
+                        format!("{}: macro-derived client with ConjureResponseDeserializer: the generated server answered 204 for the empty value {:?} and the client failed: {}", who, r.ret.as_ref().map(|x| x.render()), e.cause),
+                    ),
                     CallResult::Err(e) => ctx.violation(
                         "C04",
                         format!("client_error_after_handler:{}", meta.ret_kind_name()),
@@ -672,6 +684,8 @@ fn c19(ctx: &Ctx, calls: &[CallRec], exchanges: &[Exchange]) {
                         Expect::Reject { code, param } => e.code == *code && (param.is_none() || *param == got_param),
                         _ => false,
                     }) || (body_damage && (e.code == "InvalidArgument" || e.marker.is_some()))
+                        // a fault the statement is silent about fired too: either refusal is acceptable
+                        || (dont_care && (e.code == "InvalidArgument" || e.code == "PermissionDenied"))
                         || (e.code == "InvalidArgument" && got_param.as_ref().map(|p| opaque.contains(p)).unwrap_or(false));
                     if !ok {
                         let code_ok = rejects.iter().any(|f| matches!(&f.expect, Expect::Reject { code, .. } if e.code == *code));
@@ -963,6 +977,15 @@ fn c18(ctx: &Ctx, calls: &[CallRec], exchanges: &[Exchange]) {
                 }
             }
         };
+        if call.client_kind == crate::mirror::ClientKind::Macro && rk == RetKind::None {
+            // a macro method without `accept` uses UnitResponseDeserializer, documented as
+            // "ignores the response and returns ()": nothing to demand
+            continue;
+        }
+        if call.client_kind == crate::mirror::ClientKind::Smile {
+            // the foreign peer negotiates Smile; only its undamaged exchanges are judged (by C04)
+            continue;
+        }
         let faults = kinds(&ex.resp_fired);
         let describe = || {
             format!(
@@ -992,6 +1015,13 @@ fn c18(ctx: &Ctx, calls: &[CallRec], exchanges: &[Exchange]) {
                         }
                     }
                 }
+            }
+            (WantC::OkDefault, CallResult::Err(e)) if call.client_kind == crate::mirror::ClientKind::Macro && w.status == 204 => {
+                ctx.violation(
+                    "C18",
+                    format!("macro_client_204:{}", meta.ret_kind_name()),
+                    format!("{}: macro-derived client with ConjureResponseDeserializer fails on 204 instead of returning the empty value: {}", who, e.cause),
+                );
             }
             (_, CallResult::Err(e)) => {
                 ctx.violation(
